@@ -201,6 +201,59 @@ fn seq2(a: &mut Args) -> String {
     format!("{};; {}", obs, out)
 }
 
+// ---------------------------------------------------------------- tiny shapes tilting on unit-size partners (warm-start angle clause)
+/// `seq3t kind he_big(3) tiny(9) pred nposes pose*`; kind: 0 big/tiny-cuboid · 1 tiny-cuboid/big · 2 big/tiny-triangle · 3 tiny-triangle/big
+/// (tiny cuboid: half extents = first 3 of the 9 numbers; triangle: its 3 vertices) → `oneshot* ;; manifold after every call`
+fn seq3t(a: &mut Args) -> String {
+    use crate::p3::query::{DefaultQueryDispatcher, PersistentQueryDispatcher, QueryDispatcher};
+    use crate::p3::shape::*;
+    let kind = a.u(); let hb = d3::v(a);
+    let t: Vec<f64> = (0..9).map(|_| a.f()).collect();
+    let pred = a.f(); let n = a.u();
+    let poses: Vec<_> = (0..n).map(|_| d3::iso(a)).collect();
+    let big: Box<dyn Shape3> = Box::new(Cuboid::new(hb));
+    let tiny: Box<dyn Shape3> = if kind < 2 { Box::new(Cuboid::new(d3::Vector::new(t[0], t[1], t[2]))) }
+        else { Box::new(Triangle::new(d3::Point::new(t[0], t[1], t[2]), d3::Point::new(t[3], t[4], t[5]), d3::Point::new(t[6], t[7], t[8]))) };
+    let (s1, s2) = if kind % 2 == 0 { (big, tiny) } else { (tiny, big) };
+    let mut manifolds: Vec<M3> = Vec::new();
+    let mut ws = None;
+    let mut obs = String::new(); let mut out = String::new();
+    for p in &poses {
+        match DefaultQueryDispatcher.contact(p, &*s1, &*s2, pred) { Ok(Some(c)) => obs += &format!("1 {} ", ff(c.dist)), _ => obs += "0 0000000000000000 " }
+        let r = DefaultQueryDispatcher.contact_manifolds(p, &*s1, &*s2, pred, &mut manifolds, &mut ws);
+        if r.is_err() { return "unsupported".into(); }
+        if manifolds.len() != 1 { return format!("nmanifolds {}", manifolds.len()); }
+        if !out.is_empty() { out.push(' '); }
+        out += &fman3(&manifolds[0]);
+    }
+    format!("{};; {}", obs, out)
+}
+/// `seq2t kind he_big(2) tiny(6) pred nposes pose*` — the 2-D analogue (tiny cuboid: first 2 numbers; triangle: 3 vertices)
+fn seq2t(a: &mut Args) -> String {
+    use crate::p2::query::{DefaultQueryDispatcher, PersistentQueryDispatcher, QueryDispatcher};
+    use crate::p2::shape::*;
+    let kind = a.u(); let hb = d2::v(a);
+    let t: Vec<f64> = (0..6).map(|_| a.f()).collect();
+    let pred = a.f(); let n = a.u();
+    let poses: Vec<_> = (0..n).map(|_| d2::iso(a)).collect();
+    let big: Box<dyn Shape2> = Box::new(Cuboid::new(hb));
+    let tiny: Box<dyn Shape2> = if kind < 2 { Box::new(Cuboid::new(d2::Vector::new(t[0], t[1]))) }
+        else { Box::new(Triangle::new(d2::Point::new(t[0], t[1]), d2::Point::new(t[2], t[3]), d2::Point::new(t[4], t[5]))) };
+    let (s1, s2) = if kind % 2 == 0 { (big, tiny) } else { (tiny, big) };
+    let mut manifolds: Vec<M2> = Vec::new();
+    let mut ws = None;
+    let mut obs = String::new(); let mut out = String::new();
+    for p in &poses {
+        match DefaultQueryDispatcher.contact(p, &*s1, &*s2, pred) { Ok(Some(c)) => obs += &format!("1 {} ", ff(c.dist)), _ => obs += "0 0000000000000000 " }
+        let r = DefaultQueryDispatcher.contact_manifolds(p, &*s1, &*s2, pred, &mut manifolds, &mut ws);
+        if r.is_err() { return "unsupported".into(); }
+        if manifolds.len() != 1 { return format!("nmanifolds {}", manifolds.len()); }
+        if !out.is_empty() { out.push(' '); }
+        out += &fman2(&manifolds[0]);
+    }
+    format!("{};; {}", obs, out)
+}
+
 // ---------------------------------------------------------------- exec
 pub fn exec(func: &str, a: &mut Args) -> String {
     match func {
@@ -224,6 +277,8 @@ pub fn exec(func: &str, a: &mut Args) -> String {
             fman3(&m) }
         "seq3" | "seq3o" => seq3(a),
         "seq2" => seq2(a),
+        "seq3t" => seq3t(a),
+        "seq2t" => seq2t(a),
         "comp3" => comp3(a, false),
         "tm3" => comp3(a, true),
         _ => "nofn".into(),
@@ -546,6 +601,122 @@ fn gen_seq2(r: &mut Rng, lat: bool, kind: usize, maxposes: usize) -> (String, St
     ("seq2".into(), s)
 }
 
+/// warm start decided by the ANGLE test alone: a consistent manifold whose contacts lie within a few millimetres of a pivot,
+/// then a rotation of 0.5..6 degrees about that pivot (axis perpendicular to the normal, or general), swept finely and
+/// clustered around the documented 1 degree; lever arms are so small that no contact moves by 1e-3.
+fn gen_tuc_angle3(r: &mut Rng, it: usize) -> (String, String) {
+    let old = d3::gen_iso(r, it % 4 == 0, 4.0);
+    let n1 = unit3(r, it % 4 == 0);
+    let n2 = old.inverse_transform_vector(&-n1);
+    let c = d3::gen_p(r, false, 3.0);
+    let rho = r.logu(1e-4, 4e-3);
+    let npts = 1 + r.below(4) as usize;
+    let mut pts = Vec::new();
+    for _ in 0..npts {
+        let off = d3::Vector::new(r.uniform(-1.0, 1.0), r.uniform(-1.0, 1.0), r.uniform(-1.0, 1.0)) * rho;
+        let off = off - n1 * off.dot(&n1);                     // contacts in the plane through the pivot
+        let p1 = c + off;
+        let dist = match r.below(6) { 0 => 0.0, 1 => r.uniform(-1e-5, 1e-5), _ => r.logu(1e-3, 1e-2) * if r.bool() { -1.0 } else { 1.0 } };
+        let p2 = old.inverse_transform_point(&(p1 + n1 * dist));
+        pts.push((p1, p2, dist));
+    }
+    let deg = match it % 5 {
+        0 => 1.0 + r.uniform(-1.0, 1.0) * *r.pick(&[1e-9, 1e-6, 1e-4, 1e-2]),    // around the documented bound
+        1 => r.uniform(0.5, 1.5),
+        _ => r.uniform(0.5, 6.0),
+    };
+    let axis = { let v = unit3(r, false); if r.below(4) == 0 { v } else { let w = v - n1 * v.dot(&n1); if w.norm() > 0.1 { w.normalize() } else { v } } };
+    let rot = d3::na::UnitQuaternion::from_axis_angle(&d3::na::Unit::new_normalize(axis), deg.to_radians());
+    // rotation about the pivot `c` (frame of shape 1) applied to shape 2
+    let pivot = d3::Isometry::from_parts(d3::na::Translation3::from(c.coords - rot * c.coords), rot);
+    let newp = pivot * old;
+    ("tuc3_default".into(), format!("{} {}", d3::hiso(&newp), hman3(&n1, &n2, &pts)))
+}
+fn gen_tuc_angle2(r: &mut Rng, it: usize) -> (String, String) {
+    let old = d2::gen_iso(r, it % 4 == 0, 4.0);
+    let n1 = unit2(r, it % 4 == 0);
+    let n2 = old.inverse_transform_vector(&-n1);
+    let c = d2::gen_p(r, false, 3.0);
+    let rho = r.logu(1e-4, 4e-3);
+    let tan = d2::Vector::new(-n1.y, n1.x);
+    let npts = 1 + r.below(2) as usize;
+    let mut pts = Vec::new();
+    for _ in 0..npts {
+        let p1 = c + tan * (r.uniform(-1.0, 1.0) * rho);
+        let dist = match r.below(6) { 0 => 0.0, 1 => r.uniform(-1e-5, 1e-5), _ => r.logu(1e-3, 1e-2) * if r.bool() { -1.0 } else { 1.0 } };
+        let p2 = old.inverse_transform_point(&(p1 + n1 * dist));
+        pts.push((p1, p2, dist));
+    }
+    let deg = match it % 5 {
+        0 => 1.0 + r.uniform(-1.0, 1.0) * *r.pick(&[1e-9, 1e-6, 1e-4, 1e-2]),
+        1 => r.uniform(0.5, 1.5),
+        _ => r.uniform(0.5, 6.0),
+    } * if r.bool() { -1.0 } else { 1.0 };
+    let rot = d2::na::UnitComplex::new(deg.to_radians());
+    let pivot = d2::Isometry::from_parts(d2::na::Translation2::from(c.coords - rot * c.coords), rot);
+    let newp = pivot * old;
+    ("tuc2_default".into(), format!("{} {}", d2::hiso(&newp), hman2(&n1, &n2, &pts)))
+}
+
+/// millimetre-sized cuboid / triangle resting (slightly penetrating) on a face of a unit-size cuboid and tilting by
+/// 0.5..5 degrees per call about its own centre; both argument orders
+fn gen_seq3t(r: &mut Rng, kind: usize, maxposes: usize) -> (String, String) {
+    let hb = d3::Vector::new(r.uniform(0.5, 2.0), r.uniform(0.5, 2.0), r.uniform(0.5, 2.0));
+    let ht = d3::Vector::new(r.logu(1e-3, 1e-2), r.logu(1e-3, 1e-2), r.logu(1e-3, 1e-2));
+    let k = r.below(3) as usize; let sgn = if r.bool() { 1.0 } else { -1.0 };
+    let (i, j) = ((k + 1) % 3, (k + 2) % 3);
+    // the tiny shape in its own frame: a cuboid, or a triangle lying in the plane through its origin perpendicular to axis k
+    let mut tiny = [0.0f64; 9];
+    let thick = if kind < 2 { tiny[0] = ht.x; tiny[1] = ht.y; tiny[2] = ht.z; ht[k] } else {
+        for v in 0..3 { let ang = r.uniform(0.0, 2.0) + 2.1 * v as f64; tiny[3 * v + i] = ht[i] * ang.cos(); tiny[3 * v + j] = ht[j] * ang.sin(); }
+        0.0 };
+    let pen = r.uniform(0.05, 0.3) * ht[i].min(ht[j]).min(if kind < 2 { ht[k] } else { 1.0 });
+    let mut c = d3::Vector::zeros();
+    c[k] = sgn * (hb[k] + thick - pen);
+    c[i] = r.uniform(-0.8, 0.8) * hb[i]; c[j] = r.uniform(-0.8, 0.8) * hb[j];
+    let n = 2 + r.below(maxposes as u64 - 1) as usize;
+    let axis = { let mut v = unit3(r, false); if r.below(4) != 0 { v[k] = 0.0; } if v.norm() < 0.1 { v = d3::Vector::zeros(); v[i] = 1.0; } v.normalize() };
+    let mut deg = 0.0f64;
+    let mut s = format!("{} {} {} {}", kind, d3::hv(&hb), hxs(tiny.iter()), hx(if r.bool() { 0.0 } else { r.logu(1e-4, 1e-2) }));
+    s += &format!(" {}", n);
+    for _ in 0..n {
+        let pose = d3::Isometry::from_parts(d3::na::Translation3::from(c), d3::na::UnitQuaternion::from_axis_angle(&d3::na::Unit::new_normalize(axis), deg.to_radians()));
+        let p12 = if kind % 2 == 0 { pose } else { pose.inverse() };
+        s += " "; s += &d3::hiso(&p12);
+        let step = match r.below(8) { 0 => 0.0, 1 => r.uniform(0.0, 0.9), _ => r.uniform(0.5, 5.0) } * if r.bool() { 1.0 } else { -1.0 };
+        deg += step;
+        if deg.abs() > 12.0 { deg = 0.0; }
+        if r.below(10) == 0 { c[i] += r.uniform(-1.0, 1.0) * 3e-4; c[k] += r.uniform(-1.0, 1.0) * pen * 0.2; }   // sub-threshold slide
+    }
+    ("seq3t".into(), s)
+}
+fn gen_seq2t(r: &mut Rng, kind: usize, maxposes: usize) -> (String, String) {
+    let hb = d2::Vector::new(r.uniform(0.5, 2.0), r.uniform(0.5, 2.0));
+    let ht = d2::Vector::new(r.logu(1e-3, 1e-2), r.logu(1e-3, 1e-2));
+    let k = r.below(2) as usize; let i = 1 - k; let sgn = if r.bool() { 1.0 } else { -1.0 };
+    let mut tiny = [0.0f64; 6];
+    let thick = if kind < 2 { tiny[0] = ht.x; tiny[1] = ht.y; ht[k] } else {
+        // a triangle with one edge flat on the face (in the line through its origin) and the apex away from the big cuboid
+        tiny[0 + i] = ht[i]; tiny[2 + i] = -ht[i]; tiny[4 + k] = sgn * ht[k]; tiny[4 + i] = r.uniform(-0.5, 0.5) * ht[i];
+        0.0 };
+    let pen = r.uniform(0.05, 0.3) * ht[i].min(ht[k]);
+    let mut c = d2::Vector::zeros();
+    c[k] = sgn * (hb[k] + thick - pen); c[i] = r.uniform(-0.8, 0.8) * hb[i];
+    let n = 2 + r.below(maxposes as u64 - 1) as usize;
+    let mut deg = 0.0f64;
+    let mut s = format!("{} {} {} {} {}", kind, d2::hv(&hb), hxs(tiny.iter()), hx(if r.bool() { 0.0 } else { r.logu(1e-4, 1e-2) }), n);
+    for _ in 0..n {
+        let pose = d2::Isometry::from_parts(d2::na::Translation2::from(c), d2::na::UnitComplex::new(deg.to_radians()));
+        let p12 = if kind % 2 == 0 { pose } else { pose.inverse() };
+        s += " "; s += &d2::hiso(&p12);
+        let step = match r.below(8) { 0 => 0.0, 1 => r.uniform(0.0, 0.9), _ => r.uniform(0.5, 5.0) } * if r.bool() { 1.0 } else { -1.0 };
+        deg += step;
+        if deg.abs() > 12.0 { deg = 0.0; }
+        if r.below(10) == 0 { c[i] += r.uniform(-1.0, 1.0) * 3e-4; }
+    }
+    ("seq2t".into(), s)
+}
+
 pub fn gen(r: &mut Rng, thorough: bool) -> Vec<(String, String)> {
     let k = if thorough { 10 } else { 1 };
     let mut v = Vec::new();
@@ -586,6 +757,13 @@ pub fn gen(r: &mut Rng, thorough: bool) -> Vec<(String, String)> {
     for it in 0..60 * k {
         let lat = it % 2 == 0;
         for kind in 9..11 { let (_, a) = gen_seq3(r, lat, kind, 20); v.push(("seq3o".into(), a)); }
+    }
+    for it in 0..600 * k {
+        v.push(gen_tuc_angle3(r, it));
+        v.push(gen_tuc_angle2(r, it));
+    }
+    for _ in 0..40 * k {
+        for kind in 0..4 { v.push(gen_seq3t(r, kind, 16)); v.push(gen_seq2t(r, kind, 16)); }
     }
     v
 }
